@@ -765,23 +765,39 @@ def run(res, tier, seed):
     reported = set()
     ctx = mp.get_context("fork")
     with ctx.Pool(nproc) as pool:
-        groups = []                                   # (label, [async results])
+        # the parts are queued one after the other, except the last two of the thorough tier, which are queued
+        # alternately (both progress when time is short)
+        plan = []                                     # (label, [tasks])
         for p in parts:
             if p[0] == "WR":
-                # (computed in the main process while the workers are busy with the part before)
-                hs, nsig = wr_representatives(p[1], p[2])
-                n = max(1, len(hs) // (nproc * 6))
-                groups.append(["write/read-back on %d of %d distinct final configurations" % (len(hs), nsig),
-                               [pool.apply_async(_worker, (("wr", hs[i:i + n], deadline, 10 ** 9),))
-                                for i in range(0, len(hs), n)]])
+                # (computed in the main process; the workers are already busy with the parts queued before)
+                plan.append(("WR", p))
             elif p[0] == "RANDOM":
                 ts = []
                 for i in range(nproc * 4):
                     rng = random.Random("%d/%d" % (seed, i))
                     ts.append(("list", _random_histories(rng, 1500, p[1], p[2]), deadline, 5))
-                groups.append(["random histories of length %d-%d" % (p[1], p[2]), [pool.apply_async(_worker, (t,)) for t in ts]])
+                plan.append(("random histories of length %d-%d" % (p[1], p[2]), ts))
             else:
-                groups.append([p[0], [pool.apply_async(_worker, (t,)) for t in dfs_tasks(p[1], p[2], p[3], deadline)]])
+                plan.append((p[0], dfs_tasks(p[1], p[2], p[3], deadline)))
+        groups = []                                   # [label, [async results]]
+        nseq = len(plan) if quick else len(plan) - 2
+        for label, ts in plan[:nseq]:
+            if label == "WR":
+                hs, nsig = wr_representatives(ts[1], ts[2])
+                n = max(1, len(hs) // (nproc * 6))
+                groups.append(["write/read-back on %d of %d distinct final configurations" % (len(hs), nsig),
+                               [pool.apply_async(_worker, (("wr", hs[i:i + n], deadline, 10 ** 9),))
+                                for i in range(0, len(hs), n)]])
+            else:
+                groups.append([label, [pool.apply_async(_worker, (t,)) for t in ts]])
+        rest = [[label, list(ts)] for label, ts in plan[nseq:]]
+        tail = [[label, []] for label, _ in rest]
+        while any(ts for _, ts in rest):
+            for j, (_, ts) in enumerate(rest):
+                if ts:
+                    tail[j][1].append(pool.apply_async(_worker, (ts.pop(0),)))
+        groups += tail
         all_complete = True
         for label, asyncs in groups:
             complete = True
